@@ -4,6 +4,8 @@ search for anything of a removed component that is still reachable.
 
 A spec (dict) describes ONE component by what its own `construct` declares:
   uid, nin, nout, k            class id, ports in0.. / out0.. (Bits8), constructor argument
+  oparam                       the parent configures the child object before attaching it: u = C( k=k ); u.set_param( "top.construct", k=oparam ); s.c0 = u
+  kconst                       the component publishes k (s.kc //= k) and has k % 3 extra wires / constants / nets s.kw[i]
   wires                        names of Wire(Bits8)
   mport                        True: `@method_port def ping(s)` (a callee port) that bumps the counter `s.cnt`; a block with
                                'pub' publishes `s.cnt` (only the block that an M constraint orders against `ping`, so the
@@ -87,6 +89,8 @@ class Gen:
       has_rin = rng.random() < feat.get('rin', 0.35)
       if rng.random() < feat.get('ph', 0.12): sub = self.placeholder(cin, cout, has_rin)
       else: sub = self.spec(cin, cout, depth - 1, feat=feat, rin=has_rin)
+      if not sub.get('ph') and rng.random() < feat.get('oparam', 0.25):
+        sub['oparam'] = rng.randint(20, 29); sub['kconst'] = True
       if has_rin:
         # an ordinary 1-bit input of the child (sync clear) tied by the parent to its own reset / clk / clear input
         r = rng.random()
@@ -271,11 +275,19 @@ def class_source(spec, sfx, out):
   if spec.get('rin'): L.append('    s.rin = InPort( Bits1 )')
   for i in range(spec['nout']): L.append(f'    s.out{i} = OutPort( Bits8 )')
   for w in spec['wires']: L.append(f'    s.{w} = Wire( Bits8 )')
-  if spec.get('kconst'): L += ['    s.kc = Wire( Bits8 )', '    s.kc //= k']
+  if spec.get('kconst'):
+    # k is published as a constant, and changes the structure: k % 3 more wires, constants and nets
+    L += ['    s.kc = Wire( Bits8 )', '    s.kc //= k', '    s.kw = [ Wire( Bits8 ) for _ in range( k % 3 ) ]',
+          '    for i in range( k % 3 ): s.kw[i] //= i + 1']
   lists = {}
   for slot, subspec in kids(spec):
     m = re.fullmatch(r'(\w+)((?:\[\d+\])+)', slot)
     inst = f'{cname(subspec, sfx)}( k={subspec["k"]} )'     # keyword: set_param merges into the keyword arguments
+    if subspec.get('oparam') is not None:
+      # the parent configures the child OBJECT before it attaches it
+      var = 'u_' + re.sub(r'\W', '_', slot)
+      L += [f'    {var} = {inst}', f'    {var}.set_param( "top.construct", k={subspec["oparam"]} )']
+      inst = var
     if m: lists.setdefault(m.group(1), {})[tuple(int(x) for x in re.findall(r'\d+', m.group(2)))] = inst
     else: L.append(f'    s.{slot} = {inst}')
   def nested(d, pre=()):
@@ -363,13 +375,15 @@ def param_matches(param, path):
 def eff_k(spec, path, params):
   """value of the construct argument `k` the component at `path` ends up with"""
   ks = [v for p, v in params if param_matches(p, path)]
-  return ks[-1] if ks else spec['k']
+  if ks: return ks[-1]                       # a path-based set_param of an ancestor is merged over the object's own
+  return spec['oparam'] if spec.get('oparam') is not None else spec['k']
 
 def hier(spec, pre=(), params=(), base=()):
   """[(path, comp)] for the driver: sigs mports blks uu rdu wru mcs conns consts"""
+  ke = eff_k(spec, tuple(base) + tuple(pre), params)
   sigs = [['clk', 'in'], ['reset', 'in']] + ([['rin', 'in']] if spec.get('rin') else []) + [[f'in{i}', 'in'] for i in range(spec['nin'])] + \
          [[f'out{i}', 'out'] for i in range(spec['nout'])] + [[w, 'wire'] for w in spec['wires']] + \
-         ([['kc', 'wire']] if spec.get('kconst') else [])
+         ([['kc', 'wire']] + [[f'kw[{i}]', 'wire'] for i in range(ke % 3)] if spec.get('kconst') else [])
   mports = ([['ping', 'callee']] if spec['mport'] else []) + ([['cp', 'caller']] if spec.get('caller') else [])
   blks = []
   for it in spec['items']:
@@ -388,7 +402,7 @@ def hier(spec, pre=(), params=(), base=()):
   mown = lambda x: ['u', [[], x[1]]] if x[0] == 'u' else x
   comp = [bool(spec.get('ph')), sigs, mports, blks, uu, own(spec['rdu']) + spec.get('rdux', []), own(spec['wru']) + spec.get('wrux', []),
           [[mown(x), mown(y), eq] for x, y, eq in spec['mcs']] + spec.get('mcx', []), conns,
-          [[a, str(v)] for a, v in spec['consts']] + ([[[[], 'kc'], str(eff_k(spec, tuple(base) + tuple(pre), params))]] if spec.get('kconst') else [])]
+          [[a, str(v)] for a, v in spec['consts']] + ([[[[], 'kc'], str(ke)]] + [[[[], f'kw[{i}]'], str(i + 1)] for i in range(ke % 3)] if spec.get('kconst') else [])]
   out = [[list(pre), comp]]
   for slot, subspec in kids(spec): out += hier(subspec, pre + (slot,), params, base)
   return out
